@@ -81,6 +81,10 @@ structure RwLockState where
   sem : SemState := SemState.constNew Generated.MAX_READS false
   holder : RwHolder := .none
   value : Nat := 0
+  /-- poison flag of the inner `std::sync::RwLock` (only write guards poison) -/
+  poisoned : Bool := false
+  /-- `poison::Guard.panicking` of the live write guard -/
+  wGuardPanicking : Bool := false
 deriving Repr, Inhabited
 
 namespace RwLock
@@ -107,12 +111,15 @@ def lock (L : Lens U RwLockState) (write : Bool) : Prog U LockRes := do
       if !ok then K.panic "called `Result::unwrap()` on an `Err` value: AcquireError(())" else pure ()
   else K.switch
   let m ← K.getL L
+  -- `read()` / `write()` then take the inner std guard (`Poisoned` is passed on with the guard)
+  let p ← K.isPanicking
+  let res : LockRes := if m.poisoned then .poisoned m.value else .ok m.value
   match write, m.holder with
-  | true, .none => do K.setL L { m with holder := .write me }; pure (.ok m.value)
-  | false, .none => do K.setL L { m with holder := .read [me] }; pure (.ok m.value)
+  | true, .none => do K.setL L { m with holder := .write me, wGuardPanicking := p }; pure res
+  | false, .none => do K.setL L { m with holder := .read [me] }; pure res
   | false, .read rs =>
     if rs.contains me then K.panic "assertion failed: readers.insert(me)"
-    else do K.setL L { m with holder := .read (rs ++ [me]) }; pure (.ok m.value)
+    else do K.setL L { m with holder := .read (rs ++ [me]) }; pure res
   | _, _ => K.panic "resumed a waiting thread while the lock was in an incompatible state"
 
 /-- `RwLock::try_lock(typ)`; `fixedF3` selects the repaired behaviour (give the permit back when the
@@ -124,9 +131,11 @@ def tryLock (L : Lens U RwLockState) (write : Bool) (fixedF3 : Bool := false) : 
   | .error _ => pure .wouldBlock
   | .ok () =>
     let m ← K.getL L
+    let p ← K.isPanicking
+    let res : LockRes := if m.poisoned then .poisoned m.value else .ok m.value
     match write, m.holder with
-    | true, .none => do K.setL L { m with holder := .write me }; pure (.ok m.value)
-    | false, .none => do K.setL L { m with holder := .read [me] }; pure (.ok m.value)
+    | true, .none => do K.setL L { m with holder := .write me, wGuardPanicking := p }; pure res
+    | false, .none => do K.setL L { m with holder := .read [me] }; pure res
     | false, .read rs =>
       if rs.contains me then do
         -- already a reader: `insert` returns false ⇒ `WouldBlock`
@@ -135,8 +144,8 @@ def tryLock (L : Lens U RwLockState) (write : Bool) (fixedF3 : Bool := false) : 
           Sem.release (semL L) 1
         else pure ()
         pure .wouldBlock
-      else do K.setL L { m with holder := .read (rs ++ [me]) }; pure (.ok m.value)
-    | _, _ => pure (.ok m.value)
+      else do K.setL L { m with holder := .read (rs ++ [me]) }; pure res
+    | _, _ => pure res
 
 /-- `Drop for RwLockReadGuard` / `RwLockWriteGuard` -/
 def unlock (L : Lens U RwLockState) (write : Bool) : Prog U Unit := do
@@ -151,9 +160,17 @@ def unlock (L : Lens U RwLockState) (write : Bool) : Prog U Unit := do
       K.setL L { m with holder := if rs'.isEmpty then .none else .read rs' }
   | false, _ => K.panic "exiting a reader but rwlock is in the wrong state"
   | true, .write w =>
-    if w != me then K.panic "assertion `left == right` failed (write holder)"
+    -- `self.inner = None`: the std write guard poisons the lock when the thread started to panic
+    -- while it was alive (the flag is per OS thread: any task's panic counts)
+    let p ← K.isPanicking
+    let m := { m with poisoned := m.poisoned || (p && !m.wGuardPanicking) }
+    K.setL L m
+    if w != me then K.panic "assertion `left == right` failed"
     else K.setL L { m with holder := .none }
-  | true, _ => K.panic "assertion `left == right` failed (write holder)"
+  | true, _ => do
+    let p ← K.isPanicking
+    K.setL L { m with poisoned := m.poisoned || (p && !m.wGuardPanicking) }
+    K.panic "assertion `left == right` failed"
 
 end RwLock
 
